@@ -712,12 +712,18 @@ class BaseTaskPool:
             for task_set in self._group_meta_tasks_running.values()
             for task in task_set
         )
-        with suppress(CancelledError):
-            await gather(
-                *self._meta_tasks_cancelled,
-                *not_cancelled_meta_tasks,
-                return_exceptions=return_exceptions,
-            )
+        # Wait for every meta task, even if one of them was cancelled before it
+        # ever ran (which would otherwise end the `gather` prematurely, while
+        # the others are still spawning tasks).
+        results = await gather(
+            *self._meta_tasks_cancelled,
+            *not_cancelled_meta_tasks,
+            return_exceptions=True,
+        )
+        if not return_exceptions:
+            for result in results:
+                if isinstance(result, Exception):
+                    raise result
         self._meta_tasks_cancelled.clear()
         self._group_meta_tasks_running.clear()
         await gather(
